@@ -649,6 +649,8 @@ fn inject_stream(rep: &mut Report, drv: &mut Driver, rng: &mut Rng, n: usize) ->
         off.add_auto_styles = false;
         cfg.add_auto_styles = true;
         let (Ok(Ok(on_out)), Ok(Ok(off_out))) = (transform(&doc.text, &cfg), transform(&doc.text, &off)) else { continue };
+        // the debug banner prints the configuration, the only other place where the two runs differ
+        let off_out = off_out.replacen("add_auto_styles: false", "add_auto_styles: true", 1);
         // common prefix / suffix
         let (a, b) = (on_out.as_bytes(), off_out.as_bytes());
         let mut p = 0; while p < a.len() && p < b.len() && a[p] == b[p] { p += 1; }
